@@ -16,6 +16,7 @@ def check(ctx):
     s4_report(ctx)
     s5_valuation(ctx)
     mark_loop(ctx, 'C02.S5')
+    refused_fill(ctx, 'C02.S2')
 
 
 def s1_ownership(ctx):
@@ -317,3 +318,15 @@ def mark_loop(ctx, rule):
         ctx.require(ok, rule, 'the mark price is the mid price of that asset at the update time, unmodified', e.site, fmt(price) if price else None,
                     key='%s|mark-price' % rule)
         ctx.sample({'rule': rule, 'mark_call': str(e)[:200]})
+
+
+def refused_fill(ctx, rule):
+    """A fill the position refuses (non-positive price, earlier time stamp) must not have been booked: no raise after an accumulator write."""
+    from ..vbm import dirty_raises
+    prot = {k: 'holding' for k in ('buy_quantity', 'sell_quantity', 'avg_bought', 'avg_sold', 'buy_commission', 'sell_commission', 'positions')}
+    for e in ('Position.transact', 'PositionHandler.transact_position'):
+        reps, nraise, npaths = dirty_raises(ctx, e, protected=prot)
+        for r in reps:
+            inst = '%s: refusal %s in %s happens before the fill is booked' % (e, r['exc'], r['fn'])
+            ctx.require(not r['writes'], rule, inst, r['site'], 'writes that may precede the refusal: ' + '; '.join('%s via %s at %s' % w[:3] for w in r['writes'][:4]),
+                        key='%s|refused|%s|%s:%s' % (rule, e, r['fn'], r['exc']))
